@@ -1000,7 +1000,7 @@ M('C03-sfx-reader-swapped-slices', 'C03', F_SFX,
   accept_error=True)
 M('C03-sfx-filter-168', 'C03', F_SFX,
   "            if len(line) != 169:\n", "            if len(line) != 168:\n",
-  expect='R-C03-linelen')
+  expect='R-C03-layout')
 M('C03-music-flag-shift', 'C03', F_MUSIC,
   "            p8flags = (fstop << 2) | (frepeat << 1) | fnext\n",
   "            p8flags = (fstop << 1) | (frepeat << 2) | fnext\n",
